@@ -713,6 +713,13 @@ class Evaluator(object):
             wh = tm.call(tm.ext("np.where"), (it.a[1][0],))
             self.site("call", st.iter, callee="np.where", fn=tm.ext("np.where"), base=None, args=(it.a[1][0],), kw=(), term=wh, via_filter=False, method=None)
             it = tm.call(tm.mk("builtin", "zip"), (tm.mk("star", wh),))
+        if it.op == "call" and tm.callee_name(it.a[0]) == "builtins.zip" and len(it.a[1]) >= 2 and not it.a[2] and it.a[1][0].op == "call" and tm.callee_name(it.a[1][0].a[0]) == "itertools.count" and not it.a[1][0].a[2] and len(it.a[1][0].a[1]) <= 1 and isinstance(st.target, (ast.Tuple, ast.List)) and len(st.target.elts) == len(it.a[1]):
+            # for j, a, b in zip(itertools.count(k), A, B)  is  for j, (a, b) in enumerate(zip(A, B), k)
+            rest_t = st.target.elts[1] if len(st.target.elts) == 2 else ast.copy_location(ast.Tuple(elts=list(st.target.elts[1:]), ctx=ast.Store()), st.target)
+            new_target = ast.copy_location(ast.Tuple(elts=[st.target.elts[0], rest_t], ctx=ast.Store()), st.target)
+            st = ast.copy_location(ast.For(target=new_target, iter=st.iter, body=st.body, orelse=st.orelse, type_comment=None), st)
+            rest_it = it.a[1][1] if len(it.a[1]) == 2 else tm.call(tm.mk("builtin", "zip"), tuple(it.a[1][1:]))
+            it = tm.call(tm.mk("builtin", "enumerate"), (rest_it,) + tuple(it.a[1][0].a[1]))
         if it.op == "call" and tm.callee_name(it.a[0]) in ("itertools.chain", "itertools.chain.from_iterable") and it.a[1] and not it.a[2] and not st.orelse and not any(isinstance(n, ast.Break) for n in _own_loop_nodes(st)):
             # for x in itertools.chain(A, B): the loop over A followed by the loop over B
             parts_ = list(it.a[1])
